@@ -54,7 +54,7 @@ def register(R):
         "WriteFlowControl.drain",
         ensures=[("a-drain-has-returned", "ghost.drained_since_write", "C20"),
                  ("a-sender-that-did-not-have-to-wait-returns-normally-only-if-the-connection-is-not-known-to-be-lost (otherwise: the connection error)",
-                  "implies(ghost.futures_awaited == old(ghost.futures_awaited), not self.__connection_lost)", "C20")] + Jpost + own,
+                  "implies(ghost.futures_awaited == old(ghost.futures_awaited), not self.__connection_lost)", "C20 C04")] + Jpost + own,
         raises={
             "OSError": [("lost-connection-is-reported-to-the-sender", "True", "C20")] + Jpost + own,
             "BaseException": [("cancellation-or-failure-while-suspended", "True", "C20")] + Jpost + own,
